@@ -6,6 +6,20 @@
 //!
 //! A case is one line of the driver's protocol, so the same text is fed to the Lean driver.
 mod common;
+mod dns;
+// the daemon's own modules, copied from the repository under test by build.rs (group `reload`)
+#[allow(dead_code, unused_imports)]
+#[path = "gen_daemon/args.rs"]
+mod args;
+#[allow(dead_code, unused_imports)]
+#[path = "gen_daemon/config.rs"]
+mod config;
+#[allow(dead_code, unused_imports)]
+#[path = "gen_daemon/run.rs"]
+mod run;
+#[allow(dead_code, unused_imports)]
+#[path = "gen_daemon/zones.rs"]
+mod zones;
 mod g_wire;
 mod g_codes;
 mod g_name;
@@ -48,6 +62,7 @@ fn main() {
             "writer" => g_writer::gen(&mut rng, thorough, &mut em),
             "writerptr" => g_writer::gen_ptr(&mut rng, thorough, &mut em),
             "server" => g_server::gen(&mut rng, thorough, &mut em),
+            "serverdbg" => g_server::debug_big(&mut rng),
             "zonefile" => g_zonefile::gen(&mut rng, thorough, &mut em),
             "include" => g_include::gen(&mut rng, thorough, &mut em),
             "pool" => g_pool::gen(&mut rng, thorough, &mut em),
